@@ -73,9 +73,9 @@ impl SendWindow {
 
     /// Update the sending window level when a new BTP segment had arrived,
     /// based on the ACK seq num in the incoming packet (if any).
-    fn accept_incoming(&mut self, hdr: &BtpHdr) {
+    fn accept_incoming(&mut self, hdr: &BtpHdr) -> Result<(), Error> {
         let Some(ack_seq_num) = hdr.get_ack() else {
-            return;
+            return Ok(());
         };
 
         if self.last_sent_seq_num == ack_seq_num {
@@ -110,10 +110,19 @@ impl SendWindow {
 
             let unacknowledged = (Wrapping(self.last_sent_seq_num) - Wrapping(ack_seq_num)).0;
 
+            if unacknowledged > self.window_size {
+                // More packets "in flight" than the window allows: this is an ACK
+                // for a sequence number we have never sent
+                warn!("RX data integrity failure: ACK for a sequence number which was never sent");
+                Err(ErrorCode::InvalidData)?;
+            }
+
             // Adjust our "fullness" level with the number of packets that have been acknowledged
             self.level = self.window_size - unacknowledged;
             self.sent_at = Instant::now();
         }
+
+        Ok(())
     }
 
     /// Return true if the sending window is full.
@@ -203,6 +212,11 @@ impl RecvWindow {
     fn accept_incoming(&mut self, hdr: &BtpHdr, payload: &[u8], mtu: u16) -> Result<(), Error> {
         // Check received packet integrity, as per the Matter Core spec
         self.check_data_integrity(hdr, payload, mtu)?;
+
+        if self.level == 0 {
+            warn!("RX data integrity failure: the other party is overflowing our recv window");
+            Err(ErrorCode::InvalidData)?;
+        }
 
         if let Some(msg_len) = hdr.get_msg_len() {
             if msg_len <= mtu && !hdr.is_final() {
@@ -670,8 +684,10 @@ impl Session {
             payload.len()
         );
 
+        // The ACK is validated first, so that a segment acknowledging something
+        // never sent is refused before any receive state is touched
+        self.send_window.accept_incoming(&hdr)?;
         self.recv_window.accept_incoming(&hdr, payload, self.mtu)?;
-        self.send_window.accept_incoming(&hdr);
 
         Ok(())
     }
